@@ -193,7 +193,8 @@ def r_verbosity(ctx, prog):
             return False
         e = eff.of(g)
         w = [x for x in e['w'] if x[0] not in ('local', 'viaLocal')]
-        return not w and not e['indirect'] and all(x in PURE_EXTERNAL for x in e['ext'])
+        from .effects import LIBC_WRITERS
+        return not w and not e['indirect'] and all(x in PURE_EXTERNAL or x in LIBC_WRITERS for x in e['ext'])
 
     for f in prog.all_functions:
         ok, bad, nb = verbosity_regions_pure(f, pure_call=pure_call)
